@@ -50,24 +50,28 @@ def make_sut(cfg):
 # ---- white-box reads (no side effects) ---------------------------------------
 
 
-def impl_sets(sut):
-    return [
-        (
-            [(bool(b.valid_bit), b.decoded_address.tag) for b in st.blocks],
-            list(st.replacement_strategy.get_repr()),
+def impl_sets(sut, idxs):
+    """{set index: ([(valid, tag) per way], strategy repr)} for the given sets (an operation can
+    only affect the set its address maps to, so the sets a history addresses are enough)."""
+    sets = sut.cache.sets
+    return {
+        k: (
+            [(bool(b.valid_bit), b.decoded_address.tag) for b in sets[k].blocks],
+            list(sets[k].replacement_strategy.get_repr()),
         )
-        for st in sut.cache.sets
-    ]
+        for k in idxs
+    }
 
 
-def impl_state_sig(sut):
+def impl_state_sig(sut, idxs):
+    sets = sut.cache.sets
     return hash(
         tuple(
             (
-                tuple((bool(b.valid_bit), bool(b.dirty_bit), b.decoded_address.tag) for b in st.blocks),
-                tuple(st.replacement_strategy.get_repr()),
+                tuple((bool(b.valid_bit), bool(b.dirty_bit), b.decoded_address.tag) for b in sets[k].blocks),
+                tuple(sets[k].replacement_strategy.get_repr()),
             )
-            for st in sut.cache.sets
+            for k in idxs
         )
     )
 
@@ -75,7 +79,10 @@ def impl_state_sig(sut):
 def resident_words(sut, set_index=None):
     """word address -> value for every valid block (of one set or of all)."""
     out = {}
-    sets = sut.cache.sets if set_index is None else [sut.cache.sets[set_index]]
+    if isinstance(set_index, (list, tuple, set)):
+        sets = [sut.cache.sets[k] for k in set_index]
+    else:
+        sets = sut.cache.sets if set_index is None else [sut.cache.sets[set_index]]
     for st in sets:
         for b in st.blocks:
             if b.valid_bit:
@@ -156,11 +163,18 @@ def exec_cache(trace, prop) -> Result:
     sut, pm = make_sut(cfg)
     model = ByteStore()
     ref = RefCache(cfg["kind"], cfg["ib"], cfg["bb"], cfg["ways"], cfg["strat"])
-    policies = [RefPolicy(cfg["ways"], cfg["strat"]) for _ in range(2 ** cfg["ib"])]
+    # the sets this history can address (incl. the neighbour word of a crossing access)
+    idxs = set()
+    for op in trace["ops"]:
+        if op[0] in ("R", "W", "PRE"):
+            idxs.add(ref.split(op[2] & MASK32)[0])
+            idxs.add(ref.split((op[2] + op[1] - 1) & MASK32)[0])
+    idxs = sorted(idxs)
+    policies = {k: RefPolicy(cfg["ways"], cfg["strat"]) for k in idxs}
     touched = set()  # word addresses
     hs = Hasher()
     accepted = 0
-    prev_sig = impl_state_sig(sut)
+    prev_sig = impl_state_sig(sut, idxs)
     res.states.add(prev_sig)
     prev_op = None
     set_of = lambda a: ref.split(a)[0]  # noqa: E731
@@ -198,13 +212,13 @@ def exec_cache(trace, prop) -> Result:
     for i, op in enumerate(ops):
         kind = op[0]
         pre_ctr = counters(sut, pm)
-        pre_sets = impl_sets(sut) if prop in ("C09", "C10") or kind in ("R", "W") else None
+        pre_sets = impl_sets(sut, idxs) if prop in ("C09", "C10") or kind in ("R", "W") else None
         pre_logical = None
         cls = a = None
         if kind in ("R", "W"):
             cls, a = classify(cfg, op)
             if cls != "ok" and prop == "C03":
-                rw = resident_words(sut)
+                rw = resident_words(sut, idxs)
                 pre_logical = {wa: logical_word(sut, wa, rw) for wa in touched}
         out = do_op(sut, op, m)
         status, value = out
@@ -256,12 +270,12 @@ def exec_cache(trace, prop) -> Result:
             res.probes["reset"] += 1
 
         # eviction probes / state coverage
-        sig = impl_state_sig(sut)
+        sig = impl_state_sig(sut, idxs)
         res.states.add(sig)
         res.trans.add(hash((prev_sig, kind, op[1] if len(op) > 1 else 0, sig)))
         prev_sig = sig
         if kind in ("R", "W") and not rejected:
-            post_sets = impl_sets(sut)
+            post_sets = impl_sets(sut, [ref.split(a)[0]])
             idx, tag = ref.split(a)
             for (pv, pt), (nv, nt) in zip(pre_sets[idx][0], post_sets[idx][0]):
                 if pv and nv and pt != nt:
@@ -286,7 +300,7 @@ def exec_cache(trace, prop) -> Result:
                         at=i, expected="rejected", got=value, op=op, policy=cfg["kind"],
                     )
                     break
-                rw = resident_words(sut)
+                rw = resident_words(sut, idxs)
                 for wa, old in pre_logical.items():
                     new = logical_word(sut, wa, rw)
                     if new != old:
@@ -310,9 +324,9 @@ def exec_cache(trace, prop) -> Result:
                     res.violate("C09", "penalty-mismatch", at=i, expected=wantc, got=dc, op=op, hit=hit)
                     break
                 # residency must agree as well (it decides every later hit/miss)
-                got_tags = [[t if v else None for v, t in blocks] for blocks, _ in impl_sets(sut)]
-                if got_tags[idx] != ref.sets[idx].tags:
-                    res.violate("C09", "residency-mismatch", at=i, expected=ref.sets[idx].tags, got=got_tags[idx], op=op)
+                got_tags = [t if v else None for v, t in impl_sets(sut, [idx])[idx][0]]
+                if got_tags != ref.sets[idx].tags:
+                    res.violate("C09", "residency-mismatch", at=i, expected=ref.sets[idx].tags, got=got_tags, op=op)
                     break
                 if kind == "W" and cfg["kind"] == "wt" and not hit:
                     res.probes["write miss under no-write-allocate"] += 1
@@ -325,7 +339,7 @@ def exec_cache(trace, prop) -> Result:
                         res.violate("C09", "uncounted-operation-changed-counters", at=i, expected=list(pre_ctr), got=list(post_ctr), op=op)
                         break
                 # outside the accounting claim: resynchronise the reference (counted in evidence)
-                ref.resync(impl_sets(sut))
+                ref.resync(impl_sets(sut, idxs))
                 ref.hits, ref.acc, ref.last = post_ctr[:3]
                 if kind in ("R", "W"):
                     res.relaxations["C09 reference resynchronised after " + ("rejected access" if rejected else "uncounted read")] += 1
@@ -337,7 +351,7 @@ def exec_cache(trace, prop) -> Result:
             if kind in ("R", "W") and not rejected:
                 idx, tag = ref.split(a)
                 pre_blocks = pre_sets[idx][0]
-                post = impl_sets(sut)
+                post = impl_sets(sut, idxs)
                 post_blocks = post[idx][0]
                 way_hit = next((j for j, (v, t) in enumerate(pre_blocks) if v and t == tag), None)
                 pol = policies[idx]
@@ -353,7 +367,7 @@ def exec_cache(trace, prop) -> Result:
                             break
                         pol.touch(way_new)
                         res.probes["fill" + (" displacing a valid block" if pre_blocks[way_new][0] else " into an invalid way")] += 1
-                for k, (blocks, rep) in enumerate(post):
+                for k, (blocks, rep) in post.items():
                     if [bool(x) if cfg["strat"] == "plru" else int(x) for x in rep] != policies[k].repr():
                         res.violate("C10", "policy-state", at=i, expected=policies[k].repr(), got=list(rep), op=op, set=k)
                         break
@@ -364,14 +378,14 @@ def exec_cache(trace, prop) -> Result:
                 if cfg["strat"] == "plru" and cfg["ways"] >= 4:
                     res.probes["plru tree of depth >= 2 exercised"] += 1
             elif kind == "RESET":
-                policies = [RefPolicy(cfg["ways"], cfg["strat"]) for _ in range(2 ** cfg["ib"])]
+                policies = {k: RefPolicy(cfg["ways"], cfg["strat"]) for k in idxs}
             elif kind in ("R", "W"):
-                for k, (blocks, rep) in enumerate(impl_sets(sut)):
+                for k, (blocks, rep) in impl_sets(sut, idxs).items():
                     policies[k].load_repr(rep)
                 res.relaxations["C10 policy resynchronised after rejected access"] += 1
             else:
                 # PRE / INSPECT must not move the policy
-                for k, (blocks, rep) in enumerate(impl_sets(sut)):
+                for k, (blocks, rep) in impl_sets(sut, idxs).items():
                     if [bool(x) if cfg["strat"] == "plru" else int(x) for x in rep] != policies[k].repr():
                         res.violate("C10", "policy-state-changed-by-inspection", at=i, expected=policies[k].repr(), got=list(rep), op=op, set=k)
                         break
@@ -387,8 +401,8 @@ def exec_cache(trace, prop) -> Result:
                     model.write(a, op[1], op[3])
                     for j in range(op[1]):
                         touched.add(((a + j) & MASK32) & ~3)
-                idxs = {set_of(a), set_of((a + op[1] - 1) & MASK32)}
-                if not c12_check(i, idxs):
+                aff = {set_of(a), set_of((a + op[1] - 1) & MASK32)}
+                if not c12_check(i, aff):
                     break
             elif kind == "INSPECT" and status == "ok":
                 rep = value[0]
@@ -400,10 +414,10 @@ def exec_cache(trace, prop) -> Result:
                             break
                 if res.violations:
                     break
-                if not c12_check(i, set(range(2 ** cfg["ib"]))):
+                if not c12_check(i, set(idxs)):
                     break
             elif kind in ("PRE", "RESET"):
-                if not c12_check(i, set(range(2 ** cfg["ib"]))):
+                if not c12_check(i, set(idxs)):
                     break
         prev_op = op
 
@@ -418,7 +432,7 @@ def exec_cache(trace, prop) -> Result:
                     res.violate("C03", "wrong-read-value", at=len(ops), expected=want, got=out[1], op=["R", 4, wa, 1], sweep=True)
                     break
         if prop == "C12":
-            c12_check(len(ops), set(range(2 ** cfg["ib"])))
+            c12_check(len(ops), set(idxs))
 
     res.violations = [v for v in res.violations if v["property"] == prop]
     res.sim["operations"] += len(ops)
